@@ -121,16 +121,26 @@ type plainGonumNode = graph.Node
 //@   props C17 C08 C13
 //@   requires g != nil && g.DirectedGraph != nil
 //@   requires nodes_non_nil: forall k int :: 0 <= k && k < len(nodeList) ==> nodeList[k] != nil
+//@   -- ASSUMED (A-GONUM: Lines(u, v) is a function of the graph and the queries write nothing): the answer is a
+//@   -- function of the graph object and the node list; ncEdge only NAMES that answer
+//@   assumes names_answer: result == ncEdge(g, nodeList)
 //@   -- the two gonum_* clauses need an assumed contract on gonum (Lines is a function of the graph, queries write nothing)
 
 // GetCycles: a flag is set only after a list returned by topo.DirectedCyclesIn was seen, and every list sets one flag.
-// (Which flag: that would be stated relative to ncEdge and needs an assumed contract on gonum's Lines - not stated.)
+// Which flag: relative to ncEdge - the compile-time flag is set iff some enumerated cycle has only computed edges, the
+// runtime flag iff some enumerated cycle has another edge (C17: "two or more relations forming a cycle of pure computed
+// usersets are reported as a compile-time cycle" - whatever else the model contains).
+// ($s is the slice the loop ranges over - the result of DirectedCyclesIn, whether or not it is held in a local.)
 //@ func (*AuthorizationModelGraph).GetCycles
 //@   props C17 C08 C13
 //@   requires g != nil && g.DirectedGraph != nil
 //@   loop 1 invariant none_before_first: $i == 0 ==> !hasCyclesAtCompileTime && !hasCyclesAtRuntime
+//@   loop 1 invariant compile_time_only_if: hasCyclesAtCompileTime ==> (exists k int :: 0 <= k && k < $i && !ncEdge(g, $s[k]))
+//@   loop 1 invariant compile_time_if: forall k int :: 0 <= k && k < $i && !ncEdge(g, $s[k]) ==> hasCyclesAtCompileTime
+//@   loop 1 invariant runtime_only_if: hasCyclesAtRuntime ==> (exists k int :: 0 <= k && k < $i && ncEdge(g, $s[k]))
+//@   loop 1 invariant runtime_if: forall k int :: 0 <= k && k < $i && ncEdge(g, $s[k]) ==> hasCyclesAtRuntime
 //@   loop 1 invariant one_flag_per_list: $i > 0 ==> hasCyclesAtCompileTime || hasCyclesAtRuntime
-//@   loop 1 invariant lists_kept: forall k int :: 0 <= k && k < len(nodes) ==> nodes[k] == pre(nodes[k])
+//@   loop 1 invariant lists_kept: forall k int :: 0 <= k && k < len($s) ==> $s[k] == pre($s[k])
 //@   cover none: !result.hasCyclesAtCompileTime && !result.canHaveCyclesAtRuntime
 //@   cover compile_time: result.hasCyclesAtCompileTime && !result.canHaveCyclesAtRuntime
 //@   cover both: result.hasCyclesAtCompileTime && result.canHaveCyclesAtRuntime
